@@ -17,6 +17,7 @@ import (
 
 	"github.com/anz-bank/golden-retriever/reader/remotefs"
 	"github.com/anz-bank/sysl/pkg/loader"
+	"github.com/anz-bank/sysl/pkg/syslutil"
 	"github.com/sirupsen/logrus"
 	"github.com/spf13/afero"
 
@@ -29,11 +30,14 @@ var ibRoots = []string{"/r/s", "/r/./s", "/r/s/", "/r//s/a/.."}
 var ibAlpha = []string{".", "..", "a", "b", "c", "127.0.0.1", "v1.2", "s", "r"}
 
 type ibReplay struct {
-	Kind   string `json:"kind"` // "import" | "module" (stream: raw)
-	Raw    bool   `json:"raw"`
-	Root   string `json:"root"`
-	Module string `json:"module"`
-	Text   string `json:"text,omitempty"`
+	Kind    string   `json:"kind"` // "import" | "module" (stream: raw)
+	Raw     bool     `json:"raw"`
+	Root    string   `json:"root"`
+	Module  string   `json:"module"`
+	Text    string   `json:"text,omitempty"`
+	Family  string   `json:"family,omitempty"`  // "" = the /r/s universe; "case" = letter-case universe; "nested" = the loader is handed a ChrootFs (extra.go)
+	Lower   string   `json:"lower,omitempty"`   // family "nested": root of the ChrootFs handed to the loader
+	Markers []string `json:"markers,omitempty"` // family "noroot": the root-marker directories (.sysl / .git) that exist
 }
 
 type ibObs struct {
@@ -49,12 +53,25 @@ func ibAppOf(dir string) string {
 }
 
 func ibObserve(c *common.Ctx, rp ibReplay) ibObs {
-	mem := afero.NewMemMapFs()
+	files := map[string]string{}
 	for _, d := range ibDirs {
-		afero.WriteFile(mem, filepath.Join("/r/s", d, "x.sysl"), []byte(ibAppOf(d)+":\n    ...\n"), 0o644)
+		files[filepath.Join("/r/s", d, "x.sysl")] = ibAppOf(d)
 	}
 	for _, t := range ibTargets {
-		afero.WriteFile(mem, filepath.Join("/r/s", t+".sysl"), []byte(ibAppOf(t)+":\n    ...\n"), 0o644)
+		files[filepath.Join("/r/s", t+".sysl")] = ibAppOf(t)
+	}
+	return ibObserveFiles(c, rp, files)
+}
+
+// ibObserveFiles: the universe is `files` (inner path -> name of the one app the file declares); with rp.Lower set the
+// loader is handed NewChrootFs(recording fs, rp.Lower) and wraps it again at rp.Root (nested wrappers)
+func ibObserveFiles(c *common.Ctx, rp ibReplay, files map[string]string) ibObs {
+	mem := afero.NewMemMapFs()
+	for p, app := range files {
+		afero.WriteFile(mem, p, []byte(app+":\n    ...\n"), 0o644)
+	}
+	for _, d := range rp.Markers {
+		mem.MkdirAll(d, 0o755)
 	}
 	if rp.Kind == "import" {
 		// the importing file, at the place the module argument names (independent stack cleaning)
@@ -62,7 +79,11 @@ func ibObserve(c *common.Ctx, rp ibReplay) ibObs {
 		if filepath.Ext(m) == "" {
 			m += ".sysl"
 		}
-		mp := "/" + strings.Join(cleanStack(append(splitAbs(rp.Root), strings.Split(m, "/")...)), "/")
+		var low []string
+		if rp.Lower != "" {
+			low = cleanStack(splitAbs(rp.Lower))
+		}
+		mp := "/" + strings.Join(append(low, cleanStack(append(splitAbs(rp.Root), strings.Split(m, "/")...))...), "/")
 		afero.WriteFile(mem, mp, []byte("import "+rp.Text+"\nMain:\n    ...\n"), 0o644)
 	}
 	r := &rec{Fs: mem}
@@ -76,7 +97,11 @@ func ibObserve(c *common.Ctx, rp ibReplay) ibObs {
 	var o ibObs
 	func() {
 		defer func() { recover() }()
-		m, _, err := loader.LoadSyslModule(rp.Root, rp.Module, r, logger)
+		var fs afero.Fs = r
+		if rp.Lower != "" {
+			fs = syslutil.NewChrootFs(r, rp.Lower)
+		}
+		m, _, err := loader.LoadSyslModule(rp.Root, rp.Module, fs, logger)
 		if err == nil && m != nil {
 			o.ok = true
 			for a := range m.Apps {
